@@ -37,6 +37,9 @@ BUILTIN_EXC_PARENTS = {
     "ParseException": "ParseBaseException",
     "QhullError": "RuntimeError",
     "JSONDecodeError": "ValueError",
+    "LinAlgError": "ValueError",
+    "ParseFatalException": "ParseBaseException",
+    "ParseSyntaxException": "ParseFatalException",
 }
 
 
